@@ -411,11 +411,20 @@ def _mono_div(a, b):
 
 # a total order that is a proper monomial order is needed for division to terminate:
 # use (total degree, then lexicographic on atom ids descending)
+_LEXKEY_CACHE = {}
+
+
 def _lexkey(m):
-    deg = 0
-    for (_a, e) in m:
-        deg += e
-    return (deg, tuple((-a, e) for (a, e) in m))
+    k = _LEXKEY_CACHE.get(m)
+    if k is None:
+        deg = 0
+        for (_a, e) in m:
+            deg += e
+        k = (deg, tuple((-a, e) for (a, e) in m))
+        if len(_LEXKEY_CACHE) > 400000:
+            _LEXKEY_CACHE.clear()
+        _LEXKEY_CACHE[m] = k
+    return k
 
 
 # ----------------------------------------------------------------------------------------------
